@@ -680,13 +680,13 @@ def replay(ctx, case):
 
 
 MANIFEST = {
-    "level_text": ("WHOLE EXECUTIONS (Model/LossSys.lean, 14 theorems): for every max_retry = n, every state and every event list "
+    "level_text": ("WHOLE EXECUTIONS (Model/LossSys.lean, 15 theorems): for every max_retry = n, every state and every event list "
                    "(client calls request / close / reconnect / transport read; peer events deliver any bytes, cut eof / reset / "
                    "silence, listener up / down, serve, routing activation answered / lost; advance) every call with a caller "
                    "timeout t ends within callBudget = sum over the attempts of min(t, ack) + t + ResponsePending budget, plus per "
                    "retry retry_wait * 2^i + reconnect window (sys_every_call_ends; exact closed form without ResponsePending "
                    "(n+1)(min(t,ack)+t) + n*window + sum retry_wait*2^i, attained by a silent peer: sys_every_call_ends_exact, "
-                   "callBudget_closed); a returned reply is a completely received message of the connection the last write of the "
+                   "callBudget_closed; lifted to every observation of every run: sys_run_calls_end); a returned reply is a completely received message of the connection the last write of the "
                    "request went out on, every reconnect starts from an empty queue (sys_no_fabrication, "
                    "sys_no_fabrication_attempt; a stale reply on the SAME connection is returned - shown by example); the request "
                    "is written exactly once per attempt, timeouts / busy retry on the same connection, a new connection is opened "
